@@ -68,14 +68,29 @@ def prove_identity(lhs, rhs, assumptions=None, seed=0):
     syms = {}
     try:
         d = to_sympy(z3.simplify(lhs), syms, assumptions or {}) - to_sympy(z3.simplify(rhs), syms, assumptions or {})
-    except ValueError as e:
-        return False, str(e)
+    except (ValueError, z3.Z3Exception) as e:
+        return False, f"outside the CAS fragment: {e}"
+    import signal
+
+    class _TO(Exception):
+        pass
+
+    def _alarm(*a):
+        raise _TO()
+
+    old_h = signal.signal(signal.SIGALRM, _alarm)
+    signal.alarm(30)
     try:
         s = sp.simplify(d)
         if s != 0:
             s = sp.simplify(sp.expand_log(sp.logcombine(sp.expand(d), force=True), force=True))
+    except _TO:
+        return False, "sympy time-out (30 s)"
     except Exception as e:  # pragma: no cover
         return False, f"sympy failed: {e}"
+    finally:
+        signal.alarm(0)
+        signal.signal(signal.SIGALRM, old_h)
     if s != 0:
         return False, f"sympy residue: {str(s)[:200]}"
     # numeric cross-check
